@@ -58,6 +58,8 @@ def run_one(name, checks):
             print("%s vs %s: %s %s" % (name, c, verdict, kind))
     finally:
         sh(["git", "-C", REPO, "checkout", "--", "."])
+        # the generated Coq files were last written from the changed tree: bring them back to what the restored tree says
+        sh([sys.executable, "-c", "import sys; sys.path.insert(0, %r); import gen; gen.gen_funs(); gen.gen_consts(); gen.gen_facts()" % os.path.join(VERIF, "tools")])
         # evidence written while the patch was applied describes the seeded tree: put the unchanged tree's record back
         for ep, txt in saved.items():
             open(ep, "w").write(txt)
